@@ -5,6 +5,7 @@ mod cli;
 mod extract;
 mod gen;
 mod hist;
+mod miri;
 mod model;
 mod prog;
 mod real;
@@ -265,6 +266,17 @@ fn main() {
         }
     }
 
+    // generous wall-clock watchdog: a wedged run is inconclusive, never a violation (C07 has its own
+    // per-call monitor that pins a non-returning call to its case)
+    {
+        let limit = if args.tier == "thorough" { 8 * 3600 } else { 3600 };
+        let prop = property.clone();
+        std::thread::spawn(move || {
+            std::thread::sleep(std::time::Duration::from_secs(limit));
+            println!("INCONCLUSIVE: {} did not finish within the {} s wall-clock watchdog", prop, limit);
+            std::process::exit(2);
+        });
+    }
     let findings: Vec<Finding> = report::load_findings(&property);
     let mut witness_sigs: Vec<(Finding, Vec<String>)> = Vec::new();
     let mut witness_report = Report::new();
@@ -398,6 +410,22 @@ fn main() {
             println!("INCONCLUSIVE: no monitor for property {}", property);
             std::process::exit(2);
         };
+    let mut extra = extra;
+    if args.tier == "thorough" {
+        let plan: Option<(&str, u64, u64)> = match property.as_str() {
+            "C07" => Some(("bytes", 16, 40)),
+            "C05" => Some(("threads", 16, 12)),
+            "C15" => Some(("merge", 16, 400)),
+            "C16" => Some(("ops", 16, 15)),
+            _ => None,
+        };
+        if let Some((mode, procs, count)) = plan {
+            let v = miri::slice(&property, mode, args.seed, procs, count, &mut report);
+            if let Some(o) = extra.as_object_mut() {
+                o.insert("miri".into(), v);
+            }
+        }
+    }
     // violations seen on witnesses count too (listed ones are absorbed, unlisted ones raise)
     report.merge(witness_report);
 
